@@ -241,3 +241,8 @@ def candidates(sc):
         c = copy.deepcopy(sc)
         c["target"] = sub["reader"]
         yield c
+
+
+def trace(sc):
+    yield f"target={sc['target']} candidates={sc['cands']}"
+    yield from c16.trace(sc["c16"])
